@@ -251,8 +251,10 @@ struct bitset {
     /// Converts the contents of the bitset to an unsigned long integer.
     /// The first bit corresponds to the least significant digit of the number
     /// and the last bit corresponds to the most significant digit.
+    ///
+    /// \pre The value fits: no bit at a position >= the number of digits of
+    /// unsigned long is set (std::bitset throws std::overflow_error).
     [[nodiscard]] constexpr auto to_ulong() const noexcept -> unsigned long
-        requires(etl::numeric_limits<unsigned long>::digits >= Bits)
     {
         return to_unsigned_type<unsigned long>();
     }
@@ -260,8 +262,10 @@ struct bitset {
     /// Converts the contents of the bitset to an unsigned long long
     /// integer. The first bit corresponds to the least significant digit of the
     /// number and the last bit corresponds to the most significant digit.
+    ///
+    /// \pre The value fits: no bit at a position >= the number of digits of
+    /// unsigned long long is set (std::bitset throws std::overflow_error).
     [[nodiscard]] constexpr auto to_ullong() const noexcept -> unsigned long long
-        requires(etl::numeric_limits<unsigned long long>::digits >= Bits)
     {
         return to_unsigned_type<unsigned long long>();
     }
@@ -290,6 +294,12 @@ private:
     {
         constexpr auto digits = static_cast<UInt>(etl::numeric_limits<UInt>::digits);
         auto const idx        = etl::min<UInt>(static_cast<UInt>(size()), digits);
+
+        // The value must be representable: every bit beyond the digits of UInt is zero.
+        for (auto i = static_cast<etl::size_t>(idx); i < size(); ++i) {
+            TETL_PRECONDITION(not test(i));
+        }
+
         UInt result{};
         for (UInt i{0}; i != idx; ++i) {
             if (test(static_cast<etl::size_t>(i))) {
